@@ -10,6 +10,7 @@ mod monitors;
 mod node;
 mod prng;
 mod script;
+mod world;
 
 use frame::Tier;
 
